@@ -265,6 +265,11 @@ def parse_ilog_data(data: memoryview, header_file_path: str) -> list:
         entry = table.get_entry(pte)
         if entry is not None:
             message = entry.get_message(pte)
+        elif (((pte & ERROR_MASK) == ERROR_VALUE) and
+              ((pte & REPORTED_MASK) == REPORTED_VALUE)):
+            # A reported error is marked as such even when the table has no
+            # description for it
+            message += ' - PEL entry created'
 
         # Add output line for ilog entry
         lines.append(f'{timestamp_str} {seq_num:04X} {pte:08X} {message}')
